@@ -17,17 +17,25 @@ def grid64 : List Nat :=
   [0, 1, 511, 512, 513, 1000, 1024, 4096, 2^31 - 1, 2^31, 2^32 - 600, 2^32 - 100, 2^32 - 1, 2^32, 2^32 + 5, 2^33, 2^40]
 def gridLen : List Nat := [0, 1, 10, 11, 100, 512, 600, 2^16 + 10, 2^29 + 2^16 + 10]
 
+/-- key sizes (a `uint16` widened to `uint32` in the code) and value sizes; the pairs with
+`ks + vs + 10 ≥ 2³²` are skipped (hypothesis of `G01_recordFitsGuard`). 27·9·27·17 ≈ 111k evaluations. -/
+def gridKs : List Nat := [0, 1, 2, 255, 256, 502, 512, 65534, 65535]
+def gridVs : List Nat := grid32
+
 def report (fn args : String) (code model : String) : IO Unit :=
   IO.println s!"DIFF {fn} {args} code={code} model={model}"
 
 def searchFit : IO Unit := do
   for off in grid32 do
-    for rs in grid32 do
-      for fsize in grid64 do
-        let c := Funcs.recordFitsGuard (BitVec.ofNat 32 off) (BitVec.ofNat 32 rs) (BitVec.ofNat 64 fsize)
-        let m := decide (fsize < off + rs)
-        if c ≠ m then
-          report "segmentIterator.next:recordFits" s!"offset={off} recordSize={rs} fileSize={fsize}" (toString c) (toString m)
+    for ks in gridKs do
+      for vs in gridVs do
+        if ks + vs + 10 < 2^32 then
+          for fsize in grid64 do
+            let c := Funcs.recordFitsGuard (f_f_size := BitVec.ofNat 64 fsize) (f_offset := BitVec.ofNat 32 off)
+              (v_keySize := BitVec.ofNat 32 ks) (v_valueSize := BitVec.ofNat 32 vs)
+            let m := decide (fsize < off + (ks + vs + 10))
+            if c ≠ m then
+              report "segmentIterator.next:recordFits" s!"offset={off} keySize={ks} valueSize={vs} fileSize={fsize}" (toString c) (toString m)
 
 
 def main : IO Unit := searchFit
